@@ -131,7 +131,7 @@ def run(ctx):
             ctx.sample({"bodies_hex": [b.hex() for b in bodies], "encoded": enc.decode("latin-1"),
                         "partitions": 1 << (L - 1), "exhaustive": True})
     # (2) all 1-cut and 2-cut (thorough: 3-cut) partitions of longer encodings, all four encodings
-    for it in range(ctx.n(160, 1600)):
+    for it in range(ctx.n(320, 1600)):
         bodies = make_bodies(rng, rng.randint(2, 5), 12 if ctx.quick else 20)
         how = hows[it % 4]
         upper, term, pad = rng.random() < 0.5, rng.random() < 0.7, rng.choice((0, 0, 0, 2, 4))
@@ -154,7 +154,7 @@ def run(ctx):
                         return
         ctx.hit("one_and_two_cut_enumerations")
     # (3) random partitions, byte-at-a-time, tiny bufsize, bigger bodies
-    for it in range(ctx.n(16000, 400000)):
+    for it in range(ctx.n(40000, 400000)):
         bodies = make_bodies(rng, None, rng.choice((5, 40, 40, 300)))
         how = hows[it % 4]
         upper, term, pad = rng.random() < 0.5, rng.random() < 0.7, rng.choice((0, 0, 0, 3))
